@@ -1777,7 +1777,8 @@ func (s *Server) clearExpiredClients(dt int64) {
 		}
 
 		expire := s.Options.Capabilities.MaximumSessionExpiryInterval
-		if client.Properties.ProtocolVersion == 5 && client.Properties.Props.SessionExpiryIntervalFlag {
+		if client.Properties.ProtocolVersion == 5 && client.Properties.Props.SessionExpiryIntervalFlag &&
+			client.Properties.Props.SessionExpiryInterval < expire { // a DISCONNECT may have set an interval above the maximum
 			expire = client.Properties.Props.SessionExpiryInterval
 		}
 
